@@ -92,6 +92,17 @@ func VerifC07Failover() {
 		Name: "a", Subject: "a", Partitions: []*proto.Partition{{Stream: "a", Subject: "a", Id: 0, ReplicationFactor: 3,
 			Replicas: reps, Isr: isr0, Leader: "r1"}}}}}, nil)
 	vAssert(err == nil, "stream created")
+	// other partitions of the cluster: the followers lead more partitions than
+	// the leader of "a" does, so a selection by leader load alone prefers r1
+	if vParam("otherstreams", 1) == 1 {
+		for i, l := range []string{"r2", "r3", "r2", "r3"} {
+			name := []string{"x1", "x2", "x3", "x4"}[i]
+			_, err := s.getRaft().applyOperation(context.Background(), &proto.RaftLog{Op: proto.Op_CREATE_STREAM, CreateStreamOp: &proto.CreateStreamOp{Stream: &proto.Stream{
+				Name: name, Subject: name, Partitions: []*proto.Partition{{Stream: name, Subject: name, Id: 0, ReplicationFactor: 3,
+					Replicas: reps, Isr: reps, Leader: l}}}}}, nil)
+			vAssert(err == nil, "stream created")
+		}
+	}
 	p := s.metadata.GetPartition("a", 0)
 	vAssert(p != nil, "partition exists")
 	leaderOf := map[uint64]string{}
@@ -188,6 +199,9 @@ func VerifC07Failover() {
 			vAssert(old == nleader, "exactly one leader per leader epoch")
 		}
 		leaderOf[nlepoch] = nleader
+		if nlepoch != lepoch {
+			vAssert(nleader != leader, "a failover never elects the reported leader itself")
+		}
 		if nleader != leader {
 			vCover("election")
 			vAssert(nlepoch > lepoch, "a new leader gets a new, larger leader epoch")
